@@ -5,6 +5,7 @@ import LcmProofs.EnvPerm
 import LcmProofs.SpecPerm
 import LcmProofs.ChoicePerm
 import LcmProofs.FuncOrder
+import LcmProofs.FilterConstraint
 import LcmProps.C01
 namespace Lcm
 
@@ -337,6 +338,59 @@ example : Ex.stochModel.functions.Perm Ex.stochModel'.functions := (List.reverse
 #guard ((solve Ex.stochModel' Ex.stochParams).map fun V => (V.shape, V.toFlat))
   == ((solve Ex.stochModel Ex.stochParams).map fun V => (V.shape, V.toFlat))
 #guard (((solve Ex.stochModel Ex.stochParams).getD 0 default).toFlat.all fun v => v != .ninf)
+
+/-! ## The same restriction as a filter or as a constraint (last period) -/
+
+/-- the value of every named state is the same whether a restriction is declared as a filter (applied when the
+state-choice space is built) or as a constraint (applied inside the maximisation) -/
+theorem C10_filter_as_constraint_value {m m' : Model} {P : Params} {nF nC : Name} (h : FilterToConstraint m m' P nF nC)
+    (g g' : Groups) (t : Nat) (st : List (Name × Rat)) :
+    specV m' P g' t none st = specV m P g t none st :=
+  specV_filter_constraint h g g' t st
+
+theorem PermOf.refl (m : Model) : PermOf m m := ⟨rfl, List.Perm.refl _, List.Perm.refl _, List.Perm.refl _⟩
+
+/-- **stored entries, last period**: the filter form stores the states that keep a feasible choice along a leading axis,
+the constraint form (no filter left) stores every state; entries that belong to the same named state are equal -/
+theorem C10_filter_as_constraint_last_period_entries {m m' : Model} {P : Params} {nF nC : Name}
+    (h : FilterToConstraint m m' P nF nC)
+    (hfn : (m.functions.map (·.name)).Nodup)
+    (hnd : ((m.states ++ m.choices).map (·.1)).Nodup) (hnd' : ((m'.states ++ m'.choices).map (·.1)).Nodup)
+    (t : Nat) (ht : t + 1 = m.nPeriods) (ht' : t + 1 = m'.nPeriods)
+    (hsparse : (!((groups m).sS.isEmpty && (groups m).sC.isEmpty)) = true)
+    (hdense' : (!((groups m').sS.isEmpty && (groups m').sC.isEmpty)) = false)
+    (k : Nat) (hk : k < (feasOf m P t).length) (dIdx xIdx : List Nat)
+    (hd : InBounds (sizes (groups m).dS) dIdx) (hx : InBounds (sizes (cStateGrids (groups m))) xIdx)
+    (dIdx' xIdx' : List Nat)
+    (hd' : InBounds (sizes (groups m').dS) dIdx') (hx' : InBounds (sizes (cStateGrids (groups m'))) xIdx')
+    (hfs' : allTrue m' P (toEnv (pickAt (groups m').dS dIdx' ++ pickAt (cStateGrids (groups m')) xIdx') ++ periodEnv t)
+      (filterNames m') = some true)
+    (hsame : ((feasOf m P t)[k] ++ pickAt (groups m).dS dIdx ++ pickAt (cStateGrids (groups m)) xIdx).Perm
+      (pickAt (groups m').dS dIdx' ++ pickAt (cStateGrids (groups m')) xIdx')) :
+    ((solve m' P true).getD t default).get (dIdx' ++ xIdx')
+      = ((solve m P true).getD t default).get (k :: (dIdx ++ xIdx)) := by
+  rw [C01_entry_eq_spec_restricted m P t (by omega) hsparse k hk dIdx xIdx hd hx hnd,
+    C01_entry_eq_spec_unrestricted m' P t (by omega) hdense' dIdx' xIdx' hd' hx' hnd' hfs',
+    nextOf_last m P _ t ht, nextOf_last m' P _ t ht', specV_filter_constraint h (groups m) (groups m') t]
+  symm
+  apply specV_perm_of (PermOf.refl m) hfn P _ _ t none none (fun _ => rfl) _ _ hsame
+  have hdl : dIdx.length = (groups m).dS.length := by rw [inBounds_length _ _ hd, sizes_length]
+  have hxl : xIdx.length = (cStateGrids (groups m)).length := by rw [inBounds_length _ _ hx, sizes_length]
+  have hs : (feasOf m P t)[k] ∈ assignments (groups m).sS := List.mem_of_mem_filter (List.getElem_mem hk)
+  simp only [List.map_append]
+  rw [assignments_keys _ _ hs, pickAt_keys _ _ hdl, pickAt_keys _ _ hxl]
+  exact gridState_choice_names_nodup m hnd
+
+/-- the F1 witness with its period-dependent filter re-declared as a constraint -/
+def Ex.f1AsConstraint : Model :=
+  { Ex.f1Model with functions := Ex.f1Model.functions.map fun f =>
+      if f.name == "p_filter" then { f with name := "p_constraint" } else f }
+
+-- the filter form stores s = 1, 2 in the last period (shape [2]); the constraint form stores s = 0, 1, 2 with -inf at s = 0
+#guard filterNames Ex.f1Model == ["p_filter"] && filterNames Ex.f1AsConstraint == []
+#guard constraintNames Ex.f1AsConstraint == ["p_constraint"] && constraintNames Ex.f1Model == []
+#guard ((solve Ex.f1Model Ex.f1Params).getD 1 default).toFlat == [.fin 11, .fin 21]
+#guard ((solve Ex.f1AsConstraint Ex.f1Params).getD 1 default).toFlat == [.ninf, .fin 11, .fin 21]
 
 /-- the F1 witness with its functions and (single) variables declared in another order -/
 def Ex.f1Model' : Model := { Ex.f1Model with functions := Ex.f1Model.functions.reverse }
